@@ -32,7 +32,8 @@ RULE = ("case = session on one state object (kind [positive: no bases; complex/d
         "all-Z row (optionally also user-registered letters of 1-2 characters, state built with unitary_dict=, incl. a row that is all Z but one "
         "site) as C-order / Fortran-order / strided-view array; call form: the first j = 1..15 documented parameters positionally, the rest by "
         "keyword, k and starting_epoch varied; data object and bases object of a later call: new / the same "
-        "object again / the same object overwritten in place); covers N < B, N = mB, N = mB + r; thorough enumerates single calls "
+        "object again / the same object overwritten in place; in multi-epoch calls optionally the caller's data object overwritten in place from an "
+        "on_epoch_end callback of a non-final epoch while fit is running); covers N < B, N = mB, N = mB + r; thorough enumerates single calls "
         "N <= 12 x B <= 13 x neg in {None, B, other}; plus a malformed stream (B = 0, no reference-basis row, bases of the wrong "
         "length, also as the second call of a session: outside the quantifier, informational counters only) and direct `_shuffle_data` calls "
         "(verdict only for num_batches = ceil(N/B), the only value fit passes; other values informational); ARGUMENT FORMS (stream `aseed` of every "
